@@ -36,7 +36,7 @@ H("h_inject", src="k_api.c", tus=API_TUS, c16=True, flags=CAD + ["--unwind", "65
 P5_STRIP = {"polyseed": ["__CPROVER_file_local_polyseed_c_str_split",
                         "__CPROVER_file_local_dependency_h_utf8_nfkd_lazy"]}
 for n in ("p5_decode", "p5_decode_explicit"):
-    H(n, src="p_decode.c", tus=API_TUS, strip=P5_STRIP, c16=True, flags=CAD + ["--unwind", "65"], cap=240, rss=2.0)
+    H(n, src="p_decode.c", tus=API_TUS, strip=P5_STRIP, c16=True, flags=CAD + ["--unwind", "%d" % 600], cap=240, rss=2.0)
 
 # T1 / T3-lemma: unwind = longest string + a few (skip loops are bounded by it)
 for n in ("t1_accept", "t1_safety", "t1_comparer", "t3_lemma"):
@@ -46,13 +46,13 @@ H("t2_search", src="t_search.c", tus=["lang"], extra=["stubs/bsearch.c"], flags=
 
 P6_STRIP = {"lang": ["__CPROVER_file_local_lang_c_lang_search"]}
 for n in ("p6_auto", "p6_wipe"):
-    H(n, src="p_lang.c", tus=["lang", "dependency"], strip=P6_STRIP, c16=True, flags=CAD + ["--unwind", "17"], cap=300, rss=3.0)
+    H(n, src="p_lang.c", tus=["lang", "dependency"], strip=P6_STRIP, c16=True, flags=CAD + ["--unwind", "40"], cap=600, rss=3.5)
 
 H("p1_write", src="p_str.c", tus=["polyseed", "dependency"], flags=CAD + ["--unwind", "98"], cap=120, rss=1.0)
 H("p3_lazy", src="p_str.c", tus=["dependency"], defs=["DEP_STR_MAX=1"], flags=CAD, cap=300, rss=2.0)
 H("p4_split", src="p_str.c", tus=["polyseed", "dependency"], flags=CAD, cap=600, rss=3.0)
 
-for n in ("t4_table", "t4_distinct", "t4_selffind", "t4_meta"):
+for n in ("t4_table", "t4_distinct", "t4_selffind", "t4_meta", "t4_abbrevfind"):
     # concrete table walks without any assumption: no vacuity twin needed
     H(n, src="t_table.c", tus=["lang"], extra=["stubs/bsearch.c"], langdata=True, nowitness=True,
       flags=CAD + ["--unwind", "2050", "--object-bits", "14"], cap=600, rss=4.0)
@@ -214,7 +214,9 @@ def g_t4(langs=LANGS, cfgs=("s",), selffind=False):
             if l.startswith("zh"):
                 out.append(I("t4_distinct", cfg=c, defs=d + ["UNSORTED=1"], tus=["lang", "lang_" + l], cap=900, rss=2.0))
             if selffind:
-                out.append(I("t4_selffind", cfg=c, defs=d, tus=["lang", "lang_" + l], cap=1800, rss=4.0))
+                out.append(I("t4_selffind", cfg=c, defs=d, tus=["lang", "lang_" + l], cap=1800, rss=7.0))
+                if RULE_OF[l] in (1, 3):
+                    out.append(I("t4_abbrevfind", cfg=c, defs=d, tus=["lang", "lang_" + l], cap=2400, rss=8.0))
     return out
 
 
@@ -254,11 +256,12 @@ P("C01", lambda t: g_k2()[1:3] + g_k3() + g_p1() + [I("p2_layout")] + g_p3(t) + 
   + g_t1(t) + g_t2(t) + g_t3_lemma(t) + g_t4())
 P("C02", lambda t: g_k2() + g_p5() + [I("p7_load")] + g_t3_lemma(t) + g_t4())
 P("C03", lambda t: g_k2()[1:2] + g_k3() + g_p1() + [I("p2_layout")] + g_t4_meta() + (g_t4() if t == "thorough" else []))
-P("C04", lambda t: [I("k7_keygen"), I("k7_inject"), I("k8_crypt"), I("k9_create"), I("p7_load")] + g_p5())
+P("C04", lambda t: [I("k7_keygen"), I("k7_inject"), I("k8_crypt"), I("k9_create"), I("p7_load"), I("k7_keygen", flags=["--big-endian"])] + g_p5())
 P("C05", lambda t: [I("k2_coin"), I("k2_eval"), I("p2_layout")] + g_p5())
-P("C06", lambda t: [I("k6_store"), I("k6_load"), I("p7_load"), I("p7_store")])
+BE = ["--big-endian"]     # the codecs are byte-wise: re-run on CBMC's big-endian model
+P("C06", lambda t: [I("k6_store"), I("k6_load"), I("p7_load"), I("p7_store"), I("k6_store", flags=BE), I("k6_load", flags=BE)])
 P("C07", lambda t: g_t4(selffind=(t == "thorough")) + g_t1(t) + g_t2(t) + g_t3_lemma(t))
-P("C08", lambda t: g_t1(t) + g_t2(t) + g_t3_lemma(t) + g_t4() + g_p3(t) + g_p5() + g_p6())
+P("C08", lambda t: g_t1(t) + g_t2(t) + g_t3_lemma(t) + g_t4(selffind=(t == "thorough")) + g_p3(t) + g_p5() + g_p6())
 P("C09", lambda t: g_p4(t) + g_p5() + g_p6() + g_t1(t, rules=(0, 1)))
 P("C10", lambda t: [I("k5_features"), I("k5_default"), I("k9_create"), I("p7_load"), I("p7_store"), I("k8_crypt")] + g_p5() + g_k3() + [I("k6_store")])
 P("C11", lambda t: [I("k4_birthday"), I("k9_create"), I("k8_crypt"), I("p7_store")] + g_k3() + [I("k6_store")])
